@@ -16,28 +16,65 @@ use std::sync::{Arc, Condvar, Mutex};
 use std::task::{Context, Poll, Waker};
 use std::time::{Duration, Instant, SystemTime};
 
-/// scripted result of `stream.next` for one entry
+/// scripted result of `stream.next` for one entry; an I/O error carries its `io::ErrorKind`
 #[derive(Clone, Copy, Debug, PartialEq, Eq)]
 pub enum Res {
-    Ok,
-    Validation,
-    Io,
+    Ok = 0,
+    Validation = 1,
+    /// `ErrorKind::Other`
+    Io = 2,
+    IoBrokenPipe = 3,
+    IoInterrupted = 4,
+    IoWouldBlock = 5,
+    IoTimedOut = 6,
+    IoWriteZero = 7,
+    IoUnexpectedEof = 8,
 }
 
+pub const IO_KINDS: [Res; 7] =
+    [Res::Io, Res::IoBrokenPipe, Res::IoInterrupted, Res::IoWouldBlock, Res::IoTimedOut, Res::IoWriteZero, Res::IoUnexpectedEof];
+
 impl Res {
-    pub fn letter(self) -> char {
+    pub fn letter(self) -> &'static str {
         match self {
-            Res::Ok => 'o',
-            Res::Validation => 'v',
-            Res::Io => 'i',
+            Res::Ok => "o",
+            Res::Validation => "v",
+            Res::Io => "i",
+            Res::IoBrokenPipe => "ib",
+            Res::IoInterrupted => "ii",
+            Res::IoWouldBlock => "iw",
+            Res::IoTimedOut => "it",
+            Res::IoWriteZero => "iz",
+            Res::IoUnexpectedEof => "ie",
         }
     }
     pub fn parse(s: &str) -> Option<Res> {
-        match s {
-            "o" => Some(Res::Ok),
-            "v" => Some(Res::Validation),
-            "i" => Some(Res::Io),
-            _ => None,
+        [Res::Ok, Res::Validation].into_iter().chain(IO_KINDS).find(|r| r.letter() == s)
+    }
+    pub fn from_code(c: u64) -> Res {
+        [Res::Ok, Res::Validation].into_iter().chain(IO_KINDS).find(|r| *r as u64 == c).unwrap_or(Res::Io)
+    }
+    pub fn is_io(self) -> bool {
+        !matches!(self, Res::Ok | Res::Validation)
+    }
+    pub fn io_kind(self) -> std::io::ErrorKind {
+        use std::io::ErrorKind::*;
+        match self {
+            Res::IoBrokenPipe => BrokenPipe,
+            Res::IoInterrupted => Interrupted,
+            Res::IoWouldBlock => WouldBlock,
+            Res::IoTimedOut => TimedOut,
+            Res::IoWriteZero => WriteZero,
+            Res::IoUnexpectedEof => UnexpectedEof,
+            _ => Other,
+        }
+    }
+    /// the result the stream returns
+    pub fn to_result(self) -> Result<(), IoStreamError> {
+        match self {
+            Res::Ok => Ok(()),
+            Res::Validation => Err(IoStreamError::Validation(ValidationError::invalid("scripted"))),
+            io => Err(IoStreamError::Io(std::io::Error::new(io.io_kind(), "scripted"))),
         }
     }
 }
@@ -83,6 +120,11 @@ pub struct GateInner {
     pub fpermits: usize,
     /// number of `flush` calls that have passed the shut gate on such a permit
     pub fstepped: usize,
+    /// ids that have been offered to `next` (a repeated offer is accepted whatever the script says)
+    pub seen_ids: std::collections::HashSet<u64>,
+    /// when set, `flush` calls and in-band report entries fail too, cycling through these results
+    pub fail_others: bool,
+    pub other_calls: usize,
     /// recorder gate: while true the writer's end-of-cycle histogram callbacks block
     pub hclosed: bool,
     /// number of histogram callbacks currently blocked (0 or 1)
@@ -205,17 +247,19 @@ impl EntryIoStream for GateStream {
         }
         if cap.report {
             self.shared.log(&mut g, Call::Report);
+            if g.fail_others {
+                g.other_calls += 1;
+                // Ok, Validation and every I/O kind in turn
+                let all: Vec<Res> = [Res::Ok, Res::Validation].into_iter().chain(IO_KINDS).collect();
+                return all[g.other_calls % all.len()].to_result();
+            }
             return Ok(());
         }
         let (Some(id), Some(res)) = (cap.id, cap.res) else {
             self.shared.log(&mut g, Call::Unknown);
             return Ok(());
         };
-        let res = match res {
-            0 => Res::Ok,
-            1 => Res::Validation,
-            _ => Res::Io,
-        };
+        let res = Res::from_code(res);
         g.entered += 1;
         if self.gated {
             while g.permits == 0 && !g.open {
@@ -226,6 +270,7 @@ impl EntryIoStream for GateStream {
             }
         }
         self.shared.log(&mut g, Call::Next(id, res));
+        let repeated = !g.seen_ids.insert(id);
         drop(g);
         let slow = self.shared.slow_us.load(Ordering::Relaxed);
         if slow > 0 {
@@ -234,11 +279,9 @@ impl EntryIoStream for GateStream {
                 std::hint::spin_loop();
             }
         }
-        match res {
-            Res::Ok => Ok(()),
-            Res::Validation => Err(IoStreamError::Validation(ValidationError::invalid("scripted"))),
-            Res::Io => Err(IoStreamError::Io(std::io::Error::other("scripted"))),
-        }
+        // a scripted failure is transient: should the same entry be offered again it is accepted
+        // (so that a writer that wrongly retries or re-queues terminates, with the duplicate in the log)
+        if repeated { Ok(()) } else { res.to_result() }
     }
 
     fn flush(&mut self) -> std::io::Result<()> {
@@ -259,6 +302,13 @@ impl EntryIoStream for GateStream {
             g.fblocked -= 1;
         }
         self.shared.log(&mut g, Call::Flush);
+        if g.fail_others {
+            g.other_calls += 1;
+            let n = g.other_calls % (IO_KINDS.len() + 1);
+            if n > 0 {
+                return Err(std::io::Error::new(IO_KINDS[n - 1].io_kind(), "scripted flush failure"));
+            }
+        }
         Ok(())
     }
 }
